@@ -383,9 +383,13 @@ def pruning_order_violations(A, g, wn, what):
     for pf in sorted(removers):
         if pf in reaches_w:
             bad.append("%s takes jobs out of the graph and runs %s while doing so" % (short(pf), what))
+    # the order of calls is judged inside the evaluator; in which order a driver (tests, the python wrappers) makes its API calls
+    # is its own business - the API guards itself with the start status and the job states (C20, R17.6)
+    evm = set(b.name for b in A.evaluator_methods())
+    inside = lambda n_: n_ in evm or any(n_.startswith(m_ + "::{closure") for m_ in evm)
     for fn_ in sorted(reaches_w & reaches_p):
         fb = A.facts.bodies.get(fn_)
-        if fb is None or fn_ in removers:
+        if fb is None or fn_ in removers or not inside(fn_):
             continue
         ws, ps = [], []
         for blk in fb.blocks:
